@@ -3,6 +3,10 @@
 import json, os
 root = os.path.dirname(os.path.dirname(os.path.abspath(__file__)))
 CHECKS = [
+ dict(id="C10", level="model_checking", engine="hist + gen (explicit-state search over Eval sessions)", design="§5 C10",
+      technique="explicit-state exploration: every statement sequence up to a length over a 37-statement alphabet, every way of cutting it into fragments, differential oracle against a fresh Eval given the concatenation",
+      text="Every sequence of <= 3 (thorough 4) statements over an alphabet built to interact (declarations of every form, closures created before/after writes to their captured variables, slot-re-using blocks/loops/try, const/iota groups, imports of a counting source module and a mutated builtin module, builtin shadowing, println, runtime and compile errors) is cut in all 2^(n-1) ways; each fragment's value/error, the cumulative printed output and, after the last fragment, a probe of every declared name and closure are compared with a fresh Eval evaluating the concatenation as one script. Optimizer on and off.",
+      note="A fragment ending in a non-expression statement has no defined result value (Eval returns the last value on the stack); values are compared for fragments ending in an expression statement. Compile-error positions are not compared."),
  dict(id="C07", level="model_checking", engine="hist (explicit-state search over a real VM)", design="§5 C07",
       technique="explicit-state exploration of operation histories on one real VM (every sequence up to a depth), differential oracle against a new VM, structural fingerprint of every Bytecode after every transition",
       text="Operations: Run of 17 scripts chosen one per termination kind (incl. abort, propagated and recovered Go panics and value-stack overflow while outer frames are inside try, frame overflow, error in finally, module mutation, un-released Invoker), Clear, SetRecover on/off. Every history of <= 2 (thorough 3) operations, followed by Clear or by nothing, is followed by each of 27 observed runs; the outcome must equal the outcome on a new VM and no Bytecode may be modified. The VM's private state is read by reflection to count distinct states and to show that residue existed.",
